@@ -8,6 +8,7 @@ uint64_t w_can_payoff(uint8_t* pdu);
 uint64_t w_canbrief_create(uint8_t* pdu, uint64_t id, uint8_t* payload, uint64_t len, uint64_t variant);
 uint64_t w_canbrief_steps(uint8_t* pdu, uint64_t id, uint8_t* payload, uint64_t len, uint64_t variant);
 void     w_vss_pad(uint8_t* pdu, uint64_t len);
+void     w_vss_pad_getters(uint8_t* pdu, uint64_t len, uint8_t* out);
 uint64_t w_vss_pathlen(uint8_t* pdu);
 void     w_vss_set_path(uint8_t* pdu, uint64_t kind, uint64_t static_id, uint8_t* path, uint64_t pathlen);
 void     w_vss_get_path(uint8_t* pdu, uint64_t kind, uint8_t* dest, uint8_t* out);
@@ -23,5 +24,6 @@ uint64_t w_sa_unpack(uint8_t* packed, uint64_t data_length, uint64_t req, uint8_
 uint64_t w_bo2(uint64_t helper, uint64_t x, uint8_t* image);
 uint64_t w_bo3(uint64_t helper, uint64_t x, uint8_t* image) __attribute__((weak));
 uint64_t w_bo4(uint64_t helper, uint64_t x, uint8_t* image) __attribute__((weak));   /* helper set as compiled after <byteswap.h>, <endian.h>, <arpa/inet.h>, <sys/param.h> (worlds with a hosted libc only) */
+uint64_t w_bo5(uint64_t helper, uint64_t x, uint8_t* image) __attribute__((weak));   /* helper set compiled with _MSC_VER defined (LLP64 world only) */
 uint64_t w_boc(uint64_t helper, uint64_t k, uint8_t* image);   /* literal arguments; helper 99: number of constants, 98: constant k */
 uint64_t w_bo4c(uint64_t helper, uint64_t k, uint8_t* image) __attribute__((weak));   /* helper set as compiled without predefined byte-order macros (little-endian worlds only) */
